@@ -6,10 +6,16 @@
 //!
 //! Field types and value kinds are constants of each obligation (choosing them
 //! symbolically does not terminate under CBMC); leaves are symbolic.
+//!
+//! Pre-states are built over TYPED LOCAL storage (slot array, matcher array,
+//! field definitions, array elements): CBMC treats heap allocations as untyped
+//! byte arrays and cannot fold enum tags read back from them, which makes every
+//! drop / clone / type comparison explore all variants of the recursive
+//! `LhsValue` (measured: no result in 5 min even for an empty context).
 use super::super::*;
-use super::common::set_slots_raw;
+use super::common::context_over;
 use crate::lhs_types::verif_kani::c08::{map_empty, map_is_borrowed};
-use crate::lhs_types::verif_kani::common::array_owned;
+use crate::lhs_types::verif_kani::common::array_borrowed;
 use crate::lhs_types::{Array, Bytes, Map};
 use crate::list_matcher::{ListDefinition, ListMatcher};
 use crate::scheme::verif_kani::c08::{builder_over, field_store2};
@@ -33,28 +39,53 @@ fn ty<const K: usize>() -> Type {
     }
 }
 
-/// A value of pool type K carrying the leaf `m` (so that two values of the same
-/// type can be told apart).  Built by direct construction (no checked
+/// Leaf storage of one pool value (kept in a local of the harness; the value
+/// borrows from it, so nothing lives on the heap and nothing needs dropping).
+struct L1 {
+    ints: [LhsValue<'static>; 1],
+    bytes: [u8; 1],
+}
+
+struct L2<'a> {
+    byte_elems: [LhsValue<'a>; 1],
+    inner: [LhsValue<'a>; 1],
+}
+
+fn l1(m: i64) -> L1 {
+    L1 {
+        ints: [LhsValue::Int(m)],
+        bytes: [m as u8],
+    }
+}
+
+fn l2<'a>(l: &'a L1) -> L2<'a> {
+    L2 {
+        byte_elems: [LhsValue::Bytes(Bytes::Borrowed(&l.bytes[..]))],
+        inner: [LhsValue::Array(array_borrowed(Type::Int, &l.ints[..]))],
+    }
+}
+
+/// The value of pool type K with leaf `m` (so that two values of the same type
+/// can be told apart; for the leafless Map(Int) the representation - borrowed
+/// for even m - plays that role).  Built by direct construction (no checked
 /// constructor: those are verified on their own in lhs_types/*/verif_kani/c08).
-fn value<const K: usize>(m: i64) -> LhsValue<'static> {
+fn value<'a, const K: usize>(m: i64, a: &'a L1, b: &'a L2<'a>) -> LhsValue<'a> {
     match K {
         0 => LhsValue::Int(m),
-        1 => LhsValue::Bytes(Bytes::Owned(Box::new([m as u8]))),
-        2 => LhsValue::Array(array_owned(Type::Int, vec![LhsValue::Int(m)])),
-        3 => LhsValue::Array(array_owned(
-            Type::Bytes,
-            vec![LhsValue::Bytes(Bytes::Owned(Box::new([m as u8])))],
-        )),
-        4 => LhsValue::Array(array_owned(
-            Type::Array(Type::Int.into()),
-            vec![LhsValue::Array(array_owned(Type::Int, vec![LhsValue::Int(m)]))],
-        )),
+        1 => LhsValue::Bytes(Bytes::Borrowed(&a.bytes[..])),
+        2 => LhsValue::Array(array_borrowed(Type::Int, &a.ints[..])),
+        3 => LhsValue::Array(array_borrowed(Type::Bytes, &b.byte_elems[..])),
+        4 => LhsValue::Array(array_borrowed(Type::Array(Type::Int.into()), &b.inner[..])),
         5 => LhsValue::Map(map_empty(Type::Int, m & 1 == 0)),
         _ => LhsValue::Bool(m & 1 == 0),
     }
 }
 
-/// `v` is exactly `value::<K>(m)`: full nested type and leaf.
+fn int_elem(v: Option<&LhsValue<'_>>, m: i64) -> bool {
+    matches!(v, Some(LhsValue::Int(x)) if *x == m)
+}
+
+/// `v` is exactly the pool value of type K with leaf m: full nested type and leaf.
 fn is_value<const K: usize>(v: &LhsValue<'_>, m: i64) -> bool {
     if v.get_type() != ty::<K>() {
         return false;
@@ -63,7 +94,7 @@ fn is_value<const K: usize>(v: &LhsValue<'_>, m: i64) -> bool {
         0 => matches!(v, LhsValue::Int(x) if *x == m),
         1 => matches!(v, LhsValue::Bytes(b) if b.len() == 1 && b[0] == m as u8),
         2 => match v {
-            LhsValue::Array(a) => a.len() == 1 && matches!(a.get(0), Some(LhsValue::Int(x)) if *x == m),
+            LhsValue::Array(a) => a.len() == 1 && int_elem(a.get(0), m),
             _ => false,
         },
         3 => match v {
@@ -75,10 +106,7 @@ fn is_value<const K: usize>(v: &LhsValue<'_>, m: i64) -> bool {
         4 => match v {
             LhsValue::Array(a) => match a.get(0) {
                 Some(LhsValue::Array(inner)) => {
-                    a.len() == 1
-                        && inner.value_type() == Type::Int
-                        && inner.len() == 1
-                        && matches!(inner.get(0), Some(LhsValue::Int(x)) if *x == m)
+                    a.len() == 1 && inner.value_type() == Type::Int && inner.len() == 1 && int_elem(inner.get(0), m)
                 }
                 _ => false,
             },
@@ -92,7 +120,7 @@ fn is_value<const K: usize>(v: &LhsValue<'_>, m: i64) -> bool {
     }
 }
 
-/// The slot is `None` (present == false) or holds exactly `value::<K>(m)`.
+/// The slot is `None` (present == false) or holds exactly the pool value (K, m).
 fn slot_is<const K: usize>(slot: &Option<LhsValue<'_>>, present: bool, m: i64) -> bool {
     match slot {
         None => !present,
@@ -100,15 +128,15 @@ fn slot_is<const K: usize>(slot: &Option<LhsValue<'_>>, present: bool, m: i64) -
     }
 }
 
-fn slot_of<const K: usize>(present: bool, m: i64) -> Option<LhsValue<'static>> {
-    if present { Some(value::<K>(m)) } else { None }
+fn no_matchers() -> [Box<dyn ListMatcher>; 0] {
+    []
 }
 
 // ---------------------------------------------------------------------------
 // K1 + K2: set_field_value / get_field_value
 // ---------------------------------------------------------------------------
 
-/// K1 `set_field_value(field, v)` on a scheme (f0: FT, f1: Int), value of kind VK:
+/// K1 `set_field_value(field, v)` on a scheme (a: FT, b: Int), value of kind VK:
 /// Ok(prev) <=> the field belongs to the context's scheme AND VK's full nested
 /// type equals FT's; then slots' = slots[0 := Some(v)] and prev = old slot 0.
 /// Otherwise Err(SchemeMismatch | TypeMismatch{actual}) and the WHOLE view is
@@ -120,24 +148,28 @@ fn set_field_value_contract<const FT: usize, const VK: usize, const FOREIGN: boo
     let mut f2 = field_store2(ty::<FT>(), Type::Int);
     let s1 = unsafe { builder_over(&mut f1) }.build();
     let s2 = unsafe { builder_over(&mut f2) }.build();
-    let mut ctx = ExecutionContext::<()>::new(&s1);
     let p0: i64 = kani::any();
     let p1: i64 = kani::any();
     let x: i64 = kani::any();
     let had0: bool = kani::any();
     let had1: bool = kani::any();
-    let mut slots = [slot_of::<FT>(had0, p0), slot_of::<0>(had1, p1)];
-    unsafe { set_slots_raw(&mut ctx, &mut slots[..]) };
-    let foreign = FOREIGN;
+    let (old_a, new_a) = (l1(p0), l1(x));
+    let (old_b, new_b) = (l2(&old_a), l2(&new_a));
+    let mut slots = [
+        if had0 { Some(value::<FT>(p0, &old_a, &old_b)) } else { None },
+        if had1 { Some(LhsValue::Int(p1)) } else { None },
+    ];
+    let mut ms = no_matchers();
+    let mut ctx = unsafe { context_over(&s1, &mut slots[..], &mut ms[..], ()) };
 
-    let r = ctx.set_field_value(field_ref(if FOREIGN { &s2 } else { &s1 }, 0), value::<VK>(x));
+    let r = ctx.set_field_value(field_ref(if FOREIGN { &s2 } else { &s1 }, 0), value::<VK>(x, &new_a, &new_b));
 
-    let should_succeed = !foreign && ty::<FT>() == ty::<VK>();
+    let should_succeed = !FOREIGN && ty::<FT>() == ty::<VK>();
     let mut outcome = 0u8;
     match r {
         Ok(prev) => {
             outcome = 1;
-            assert!(!foreign, "a field of another (structurally identical) scheme must be refused");
+            assert!(!FOREIGN, "a field of another (structurally identical) scheme must be refused");
             assert!(ty::<FT>() == ty::<VK>(), "a value whose full nested type differs from the field's must be refused");
             assert!(slot_is::<FT>(&prev, had0, p0), "the previously stored value is returned");
             assert!(slot_is::<VK>(&ctx.values[0], true, x), "the slot holds the value just set");
@@ -145,12 +177,12 @@ fn set_field_value_contract<const FT: usize, const VK: usize, const FOREIGN: boo
         }
         Err(SetFieldValueError::SchemeMismatch(_)) => {
             outcome = 2;
-            assert!(foreign, "scheme mismatch only for a field of another scheme");
+            assert!(FOREIGN, "scheme mismatch only for a field of another scheme");
             assert!(slot_is::<FT>(&ctx.values[0], had0, p0), "a failed set leaves the context unchanged");
         }
         Err(SetFieldValueError::TypeMismatch(e)) => {
             outcome = 3;
-            assert!(!foreign, "a foreign field is a scheme mismatch");
+            assert!(!FOREIGN, "a foreign field is a scheme mismatch");
             assert!(ty::<FT>() != ty::<VK>(), "a value of the field's own type must be accepted");
             assert!(e.actual == ty::<VK>(), "the error reports the value's type");
             assert!(slot_is::<FT>(&ctx.values[0], had0, p0), "a failed set leaves the context unchanged");
@@ -203,7 +235,9 @@ fn set_field_value_contract<const FT: usize, const VK: usize, const FOREIGN: boo
     kani::cover!(outcome == expected_outcome && !had0 && !had1, "both slots were empty");
     std::mem::forget(ctx);
     std::mem::forget((s1, s2));
-    std::mem::forget((slots, f1, f2));
+    std::mem::forget((slots, ms, f1, f2));
+    std::mem::forget((old_b, new_b));
+    std::mem::forget((old_a, new_a));
 }
 
 macro_rules! set_pairs {
@@ -266,18 +300,23 @@ fn get_field_value__foreign_field_panics() {
 fn set_by_name_contract<const FT: usize, const VK: usize, const NAME: usize, const P: bool>() {
     let mut f = field_store2(ty::<FT>(), Type::Int);
     let s = unsafe { builder_over(&mut f) }.build();
-    let mut ctx = ExecutionContext::<()>::new(&s);
     let p0: i64 = kani::any();
     let p1: i64 = kani::any();
     let x: i64 = kani::any();
-    let mut slots = [slot_of::<FT>(P, p0), slot_of::<0>(P, p1)];
-    unsafe { set_slots_raw(&mut ctx, &mut slots[..]) };
+    let (old_a, new_a) = (l1(p0), l1(x));
+    let (old_b, new_b) = (l2(&old_a), l2(&new_a));
+    let mut slots = [
+        if P { Some(value::<FT>(p0, &old_a, &old_b)) } else { None },
+        if P { Some(LhsValue::Int(p1)) } else { None },
+    ];
+    let mut ms = no_matchers();
+    let mut ctx = unsafe { context_over(&s, &mut slots[..], &mut ms[..], ()) };
     let name = match NAME {
         0 => "a",
         1 => "b",
         _ => "zz",
     };
-    let r = ctx.set_field_value_from_name(name, value::<VK>(x));
+    let r = ctx.set_field_value_from_name(name, value::<VK>(x, &new_a, &new_b));
     let target_ty = if NAME == 0 { ty::<FT>() } else { Type::Int };
     let should_succeed = NAME < 2 && target_ty == ty::<VK>();
     let mut outcome = 0u8;
@@ -320,7 +359,9 @@ fn set_by_name_contract<const FT: usize, const VK: usize, const NAME: usize, con
     kani::cover!(outcome == (if NAME >= 2 { 2 } else if should_succeed { 1 } else { 3 }));
     std::mem::forget(ctx);
     std::mem::forget(s);
-    std::mem::forget((slots, f));
+    std::mem::forget((slots, ms, f));
+    std::mem::forget((old_b, new_b));
+    std::mem::forget((old_a, new_a));
 }
 
 macro_rules! by_name {
@@ -351,7 +392,7 @@ by_name! {
 }
 
 // ---------------------------------------------------------------------------
-// recording list matcher (as in c17.rs; a scheme with a list is needed to see
+// recording list matcher (as in c17.rs; a scheme with lists is needed to see
 // the matchers of clear / clone_with / borrow_with)
 // ---------------------------------------------------------------------------
 
@@ -409,6 +450,15 @@ macro_rules! scheme_with_lists {
     }};
 }
 
+/// The matchers `ExecutionContext::new` creates for that scheme (one per list,
+/// registration order), as a local array.
+fn matchers_of(s: &Scheme) -> [Box<dyn ListMatcher>; 2] {
+    [
+        list_ref(s, 0).definition().new_matcher(),
+        list_ref(s, 1).definition().new_matcher(),
+    ]
+}
+
 // ---------------------------------------------------------------------------
 // K3: clear
 // ---------------------------------------------------------------------------
@@ -423,13 +473,19 @@ fn clear_contract<const K0: usize, const K1: usize, const P0: bool, const P1: bo
     let b: i64 = kani::any();
     let mut f = field_store2(ty::<K0>(), ty::<K1>());
     let s = scheme_with_lists!(f, a, b);
-    let mut ctx = ExecutionContext::<()>::new(&s);
     let m0: i64 = kani::any();
     let m1: i64 = kani::any();
-    let mut slots = [slot_of::<K0>(P0, m0), slot_of::<K1>(P1, m1)];
-    unsafe { set_slots_raw(&mut ctx, &mut slots[..]) };
+    let (a0, a1) = (l1(m0), l1(m1));
+    let (b0, b1) = (l2(&a0), l2(&a1));
+    let mut slots = [
+        if P0 { Some(value::<K0>(m0, &a0, &b0)) } else { None },
+        if P1 { Some(value::<K1>(m1, &a1, &b1)) } else { None },
+    ];
+    let mut ms = matchers_of(&s);
+    let mut ctx = unsafe { context_over(&s, &mut slots[..], &mut ms[..], ()) };
     assert!(ctx.list_matchers.len() == 2);
     assert!(rec(&*ctx.list_matchers[0]).cleared == 0 && rec(&*ctx.list_matchers[1]).cleared == 0);
+    assert!(slot_is::<K0>(&ctx.values[0], P0, m0) && slot_is::<K1>(&ctx.values[1], P1, m1));
 
     ctx.clear();
 
@@ -444,7 +500,9 @@ fn clear_contract<const K0: usize, const K1: usize, const P0: bool, const P1: bo
     kani::cover!(true);
     std::mem::forget(ctx);
     std::mem::forget(s);
-    std::mem::forget((slots, f));
+    std::mem::forget((slots, ms, f));
+    std::mem::forget((b0, b1));
+    std::mem::forget((a0, a1));
 }
 
 macro_rules! clear_harness {
@@ -464,7 +522,8 @@ clear_harness! {
     clear__first_set: 0, 1, true, false;
     clear__second_set_bytes: 0, 1, false, true;
     clear__both_set: 0, 1, true, true;
-    clear__array_value_set: 2, 0, true, true;
+    clear__array_int_value_set: 2, 1, true, true;
+    clear__nested_array_value_set: 4, 0, true, false;
 }
 
 // ---------------------------------------------------------------------------
@@ -474,15 +533,21 @@ clear_harness! {
 /// K4 `clone_with(u)`, values: the clone has the same scheme, an equal view and
 /// the given user data; afterwards the two are independent: a set on either
 /// side leaves the other unchanged.  (Scheme without lists; the matchers are
-/// the next obligation - together they exceed 5 min of SAT time.)
+/// the next obligation.)
 fn clone_with_values_contract<const K0: usize, const P0: bool, const P1: bool>() {
     let mut f = field_store2(ty::<K0>(), ty::<6>());
     let s = unsafe { builder_over(&mut f) }.build();
-    let mut ctx = ExecutionContext::<()>::new(&s);
     let m0: i64 = kani::any();
     let m1: i64 = kani::any();
-    let mut slots = [slot_of::<K0>(P0, m0), slot_of::<6>(P1, m1)];
-    unsafe { set_slots_raw(&mut ctx, &mut slots[..]) };
+    let x: i64 = kani::any();
+    let (a0, ax) = (l1(m0), l1(x));
+    let (b0, bx) = (l2(&a0), l2(&ax));
+    let mut slots = [
+        if P0 { Some(value::<K0>(m0, &a0, &b0)) } else { None },
+        if P1 { Some(LhsValue::Bool(m1 & 1 == 0)) } else { None },
+    ];
+    let mut ms = no_matchers();
+    let mut ctx = unsafe { context_over(&s, &mut slots[..], &mut ms[..], ()) };
     let u: u8 = kani::any();
 
     let mut c = ctx.clone_with(u);
@@ -495,15 +560,14 @@ fn clone_with_values_contract<const K0: usize, const P0: bool, const P1: bool>()
     assert!(c.list_matchers.len() == 0 && ctx.list_matchers.len() == 0);
 
     // a write to the clone is not seen by the original
-    let x: i64 = kani::any();
-    let r = c.set_field_value(field_ref(&s, 0), value::<K0>(x));
+    let r = c.set_field_value(field_ref(&s, 0), value::<K0>(x, &ax, &bx));
     assert!(r.is_ok());
     std::mem::forget(r);
     assert!(slot_is::<K0>(&c.values[0], true, x));
     assert!(slot_is::<K0>(&ctx.values[0], P0, m0), "a write to the clone leaves the original unchanged");
     // a write to the original is not seen by the clone
     let y: i64 = kani::any();
-    let r = ctx.set_field_value(field_ref(&s, 1), value::<6>(y));
+    let r = ctx.set_field_value(field_ref(&s, 1), LhsValue::Bool(y & 1 == 0));
     assert!(r.is_ok());
     std::mem::forget(r);
     assert!(slot_is::<6>(&ctx.values[1], true, y));
@@ -512,7 +576,9 @@ fn clone_with_values_contract<const K0: usize, const P0: bool, const P1: bool>()
     std::mem::forget(c);
     std::mem::forget(ctx);
     std::mem::forget(s);
-    std::mem::forget((slots, f));
+    std::mem::forget((slots, ms, f));
+    std::mem::forget((b0, bx));
+    std::mem::forget((a0, ax));
 }
 
 macro_rules! clone_harness {
@@ -544,9 +610,9 @@ fn clone_with__matchers_cloned_and_independent() {
     let b: i64 = kani::any();
     let mut f = field_store2(Type::Int, Type::Bool);
     let s = scheme_with_lists!(f, a, b);
-    let mut ctx = ExecutionContext::<()>::new(&s);
     let mut slots: [Option<LhsValue<'static>>; 2] = [None, None];
-    unsafe { set_slots_raw(&mut ctx, &mut slots[..]) };
+    let mut ms = matchers_of(&s);
+    let mut ctx = unsafe { context_over(&s, &mut slots[..], &mut ms[..], ()) };
     let w: i64 = kani::any();
     rec_mut(ctx.get_list_matcher_mut(list_ref(&s, 1))).id = w;
 
@@ -567,7 +633,7 @@ fn clone_with__matchers_cloned_and_independent() {
     std::mem::forget(c);
     std::mem::forget(ctx);
     std::mem::forget(s);
-    std::mem::forget((slots, f));
+    std::mem::forget((slots, ms, f));
 }
 
 // ---------------------------------------------------------------------------
@@ -583,13 +649,15 @@ fn borrow_with_contract<const P0: bool, const P1: bool>() {
     let b: i64 = kani::any();
     let mut f = field_store2(ty::<0>(), ty::<6>());
     let s = scheme_with_lists!(f, a, b);
-    let mut ctx = ExecutionContext::<u16>::new(&s);
     let m0: i64 = kani::any();
     let m1: i64 = kani::any();
-    let mut slots = [slot_of::<0>(P0, m0), slot_of::<6>(P1, m1)];
-    unsafe { set_slots_raw(&mut ctx, &mut slots[..]) };
+    let mut slots = [
+        if P0 { Some(LhsValue::Int(m0)) } else { None },
+        if P1 { Some(LhsValue::Bool(m1 & 1 == 0)) } else { None },
+    ];
+    let mut ms = matchers_of(&s);
     let w: u16 = kani::any();
-    *ctx.get_user_data_mut() = w;
+    let mut ctx = unsafe { context_over(&s, &mut slots[..], &mut ms[..], w) };
     let u: u8 = kani::any();
     let x: i64 = kani::any();
     let z: i64 = kani::any();
@@ -633,28 +701,26 @@ fn borrow_with_contract<const P0: bool, const P1: bool>() {
     kani::cover!(x != m0 && z != b);
     std::mem::forget(ctx);
     std::mem::forget(s);
-    std::mem::forget((slots, f));
+    std::mem::forget((slots, ms, f));
 }
 
-#[kani::proof]
-#[kani::unwind(3)]
-#[kani::stub(<crate::types::ExpectedTypeList as std::convert::From<crate::types::Type>>::from, crate::types::verif_kani::c08::expected_type_list_from_type__contract)]
-fn borrow_with__writes_through_both_set() {
-    borrow_with_contract::<true, true>()
+macro_rules! borrow_harness {
+    ($($name:ident: $p0:literal, $p1:literal;)*) => {
+        $(
+            #[kani::proof]
+            #[kani::unwind(3)]
+            #[kani::stub(<crate::types::ExpectedTypeList as std::convert::From<crate::types::Type>>::from, crate::types::verif_kani::c08::expected_type_list_from_type__contract)]
+            fn $name() {
+                borrow_with_contract::<$p0, $p1>()
+            }
+        )*
+    };
 }
 
-#[kani::proof]
-#[kani::unwind(3)]
-#[kani::stub(<crate::types::ExpectedTypeList as std::convert::From<crate::types::Type>>::from, crate::types::verif_kani::c08::expected_type_list_from_type__contract)]
-fn borrow_with__writes_through_none_set() {
-    borrow_with_contract::<false, false>()
-}
-
-#[kani::proof]
-#[kani::unwind(3)]
-#[kani::stub(<crate::types::ExpectedTypeList as std::convert::From<crate::types::Type>>::from, crate::types::verif_kani::c08::expected_type_list_from_type__contract)]
-fn borrow_with__writes_through_second_set() {
-    borrow_with_contract::<false, true>()
+borrow_harness! {
+    borrow_with__writes_through_both_set: true, true;
+    borrow_with__writes_through_none_set: false, false;
+    borrow_with__writes_through_second_set: false, true;
 }
 
 /// `take_with(f)`: the view (values, matchers, scheme) moves unchanged into the
@@ -664,13 +730,17 @@ fn take_with_contract<const K0: usize, const P0: bool, const P1: bool>() {
     let b: i64 = kani::any();
     let mut f = field_store2(ty::<K0>(), ty::<6>());
     let s = scheme_with_lists!(f, a, b);
-    let mut ctx = ExecutionContext::<u8>::new(&s);
     let m0: i64 = kani::any();
     let m1: i64 = kani::any();
-    let mut slots = [slot_of::<K0>(P0, m0), slot_of::<6>(P1, m1)];
-    unsafe { set_slots_raw(&mut ctx, &mut slots[..]) };
+    let a0 = l1(m0);
+    let b0 = l2(&a0);
+    let mut slots = [
+        if P0 { Some(value::<K0>(m0, &a0, &b0)) } else { None },
+        if P1 { Some(LhsValue::Bool(m1 & 1 == 0)) } else { None },
+    ];
+    let mut ms = matchers_of(&s);
     let w: u8 = kani::any();
-    *ctx.get_user_data_mut() = w;
+    let mut ctx = unsafe { context_over(&s, &mut slots[..], &mut ms[..], w) };
     let z: i64 = kani::any();
     rec_mut(ctx.get_list_matcher_mut(list_ref(&s, 0))).id = z;
     let t = ctx.take_with(|old| (old as u16) + 256);
@@ -682,7 +752,9 @@ fn take_with_contract<const K0: usize, const P0: bool, const P1: bool>() {
     kani::cover!(true);
     std::mem::forget(t);
     std::mem::forget(s);
-    std::mem::forget((slots, f));
+    std::mem::forget((slots, ms, f));
+    std::mem::forget(b0);
+    std::mem::forget(a0);
 }
 
 #[kani::proof]
